@@ -262,7 +262,7 @@ def rawChange (e : Enc) (id : Nat) (value : List Nat) (st : States) : Option Enc
 def realChange (e : Enc) (id : Nat) (le : List Nat) : Option Enc :=
   valueChange e id (fun ti => addReal ti le)
 
-/-- `Encoder::append`; `none` = panic (unwrap on no blocks, or not chronological) -/
+/-- `Encoder::append`; `none` = panic (not chronological) -/
 def append (c : Codec) (a b : Enc) : Option Enc :=
   let a := finishBlock c a
   let b := finishBlock c b
@@ -270,7 +270,7 @@ def append (c : Codec) (a b : Enc) : Option Enc :=
   | [] => some a
   | bf :: _ =>
     match a.blocksRev with
-    | [] => none
+    | [] => some { a with blocksRev := b.blocksRev }
     | al :: _ =>
       if al.timeTable.getLast?.getD 0 ≤ bf.startTime then
         some { a with blocksRev := b.blocksRev ++ a.blocksRev }
